@@ -18,12 +18,12 @@ def analyse(seed):
   kind = rng.choice(['plain', 'plain', 'plain', 'spike'])
   spec = tbrfam.gen_frame(seed, cooldown=True, scenario=rng.choice(['fixed', 'variable']))
   r3 = random.Random(seed * 29 + 3)
-  if spec['scenario'] == 'variable' and kind == 'plain' and r3.random() < 0.35:
+  if spec['scenario'] == 'variable' and kind == 'plain' and r3.random() < 0.35 and spec['n_pre'] >= 5:
     kind = 'constant-control-cost'          # control geos on a constant daily budget: the cost regression is rank-deficient
     for g in spec['geos']:
       if g['group'] == 1:
         g['cost'] = [float(4 * (1 + g['id'] % 3))] * len(g['cost'])
-  if spec['scenario'] == 'variable' and kind == 'plain' and r3.random() < 0.3:
+  if spec['scenario'] == 'variable' and kind == 'plain' and r3.random() < 0.3 and spec['n_pre'] >= 5:
     kind = 'dark-control'                   # the control group never spends; the treatment group has a base spend in the pre-period too
     for g in spec['geos']:
       if g['group'] == 1:
@@ -82,7 +82,12 @@ def analyse(seed):
       dec = any(b < a for a, b in zip(scales, scales[1:]))
       alpha = (1 - level) / tails
       msg = '%s, level=%g, tails=%d: the report raised ValueError (%s)' % (metric, level, tails, str(e)[:60])
-      if not fixed_cost and alpha > 0.5:
+      exact_fit = max(scales + [0.0]) <= 1e-9 * max([1.0] + [abs(v) for v in locs])
+      if exact_fit:
+        # the pre-period regression fits exactly (e.g. three collinear points): all bounds coincide with the estimate and
+        # which side rounding puts them on decides whether the series container accepts them -- outside the domain judged here
+        out['exact_fit_skipped'] = out.get('exact_fit_skipped', 0) + 1
+      elif not fixed_cost and alpha > 0.5:
         out['known'].append((KNOWN_LVL, msg))
       elif not fixed_cost and dec:
         out['known'].append((KNOWN_SCALE, msg + '; cumulative scale decreases'))
@@ -111,12 +116,15 @@ def analyse(seed):
       from scipy import stats
       alpha = (1 - level) / tails
       dfree = float(dist.args[0])
-      if not close(float(np.array(cu['estimate'], dtype=float)[-1]), locs[-1], 1e-8, 1e-6):
+      # (figures that cancel to ~0 are compared on the scale of the series they are sums of)
+      mag = 1e-8 * max(1.0, float(np.abs(y_all).max()) * len(y_all))
+      near = lambda a_, b_: close(a_, b_, 1e-8, 1e-6) or abs(a_ - b_) <= mag
+      if not near(float(np.array(cu['estimate'], dtype=float)[-1]), locs[-1]):
         out['fails'].append('%s: last cumulative estimate %r is not the posterior location %r' % (metric, float(np.array(cu['estimate'])[-1]), locs[-1]))
       want_lo = locs[-1] + scales[-1] * float(stats.t.ppf(alpha, dfree))
       want_up = locs[-1] + scales[-1] * float(stats.t.ppf(1 - alpha, dfree))
-      if not close(float(np.array(cu['lower'], dtype=float)[-1]), want_lo, 1e-8, 1e-6) or \
-         not close(float(np.array(cu['upper'], dtype=float)[-1]), want_up, 1e-8, 1e-6):
+      if not near(float(np.array(cu['lower'], dtype=float)[-1]), want_lo) or \
+         not near(float(np.array(cu['upper'], dtype=float)[-1]), want_up):
         out['fails'].append('%s: last cumulative bounds are not the posterior quantiles' % metric)
     else:
       tot = sum(p[1] for p in test + cool)
